@@ -446,6 +446,13 @@ func (x *Exec) litUnit(u *Unit) {
 		name, m, tr := x.chTrace(st, "sent", c)
 		st.maps[name] = tStore(m, c, Term{S: "emp_" + tr, Sort: tr})
 	}
+	for _, nm := range splitList(u.Proc.Opts["slot"]) {
+		if c, ok := env0.lookup(nm); ok {
+			x.chSetInt(st, "slots", c, tInt(1))
+		} else {
+			x.problems = append(x.problems, "slot: unknown channel "+nm)
+		}
+	}
 	for _, nm := range splitList(u.Proc.Opts["inputs"]) {
 		c, ok := env0.lookup(nm)
 		if !ok {
@@ -873,6 +880,9 @@ func (x *Exec) lemmaUnit(u *Unit) {
 			}
 		}
 		x.oblige(st, "lemma", u.Lemma.Name, Term{S: u.Lemma.Raw, Sort: "Bool"}, nil, u.Lemma.Raw)
+		if strings.HasPrefix(u.Lemma.Name, "ind_") && len(x.obs) > 0 {
+			x.obs[len(x.obs)-1].Induct = true // proved by structural induction (cvc5 --quant-ind)
+		}
 		return
 	}
 	env := &CEnv{names: map[string]Term{}, st: st, old: st}
